@@ -1,6 +1,7 @@
 """C15 - Unbalanced (compiled) estimator matches the balanced one, skips missing channels (structural clauses)."""
 from __future__ import annotations
 import ast
+import os
 from typing import Dict, List, Optional
 
 from ..model import AnalysisError
@@ -56,6 +57,7 @@ def run(ctx, obs):
     index_poly(ctx, obs, mod)
     method_arms(ctx, obs, mod)
     fold_guards(ctx, obs, mod)
+    int_division(ctx, obs, mod)
     wrapper(ctx, obs)
     tables(ctx, obs)
     fwd_list(ctx, obs, W + 'calc_rdm_unbalanced', split_params={'noise'})
@@ -603,3 +605,72 @@ def wrapper(ctx, obs, rule='FWD'):
     ok = any(isinstance(c, ast.Call) and _leaf(c.func) in ('astype', 'asarray', 'array', 'ascontiguousarray') and 'float64' in norm(c)
              for c in ast.walk(f3.node))
     obs.check(ok, rule, q3, 'ensure_double converts to float64', 'no conversion to float64', '', where(prog, f3, f3.node))
+
+
+# -------------------------------------------------------------------------------------------------------- INTDIV
+def int_division(ctx, obs, mod, rule='INTDIV'):
+    """Under `@cython.cdivision(True)` a `/` whose two operands are C integers (integer literals, variables declared `int` /
+    `int_t`) is C integer division.  Where the quotient feeds a float accumulator it silently truncates: `weights[idx] += 1 / 2`
+    adds 0.  Quotients stored into integer targets (index arithmetic) are intended integer divisions."""
+    import re
+    src_path = os.path.join(ctx.prog.root, PYX)
+    with open(src_path) as fh:
+        raw = fh.read().split('\n')
+    cdiv = set()
+    for i, line in enumerate(raw):
+        m = re.match(r'^\s*(cpdef|cdef|def)\s+.*?(\w+)\s*\(', line)
+        if m:
+            j = i - 1
+            while j >= 0 and raw[j].strip().startswith('@'):
+                if 'cdivision(True)' in raw[j].replace(' ', ''):
+                    cdiv.add(m.group(2))
+                j -= 1
+    n = 0
+    for fn in mod.funcs.values():
+        if fn.name not in cdiv:
+            continue
+        types = dict(fn.param_types)
+        types.update(fn.local_types)
+
+        def is_int(e) -> bool:
+            if isinstance(e, ast.Constant):
+                return isinstance(e.value, int) and not isinstance(e.value, bool)
+            if isinstance(e, ast.Name):
+                return types.get(e.id, '').strip() in ('int', 'int_t', 'long', 'Py_ssize_t', 'size_t')
+            if isinstance(e, ast.Subscript) and isinstance(e.value, ast.Name):
+                return types.get(e.value.id, '').startswith(('int', 'long'))
+            if isinstance(e, ast.BinOp) and isinstance(e.op, (ast.Add, ast.Sub, ast.Mult, ast.Div, ast.FloorDiv, ast.Mod)):
+                return is_int(e.left) and is_int(e.right)
+            if isinstance(e, ast.UnaryOp):
+                return is_int(e.operand)
+            return False
+
+        def is_float_target(t) -> bool:
+            if isinstance(t, ast.Name):
+                return 'float' in types.get(t.id, '') or 'double' in types.get(t.id, '')
+            if isinstance(t, ast.Subscript) and isinstance(t.value, ast.Name):
+                return 'float' in types.get(t.value.id, '') or 'double' in types.get(t.value.id, '')
+            return False
+        for s in ast.walk(fn.node):
+            if isinstance(s, (ast.Assign, ast.AugAssign)):
+                tgt = s.targets[0] if isinstance(s, ast.Assign) else s.target
+                for d in ast.walk(s.value):
+                    if isinstance(d, ast.BinOp) and isinstance(d.op, ast.Div) and is_int(d.left) and is_int(d.right):
+                        n += 1
+                        # the quotient is truncated only if it is still an integer expression where it meets a float
+                        whole_int = is_int(s.value)
+                        if is_float_target(tgt):
+                            # sim / 2 with sim float is fine (is_int false); only all-integer quotients get here
+                            obs.bad(rule, _q(fn), f'`{norm(d)}` feeding `{norm(tgt)}` is a floating-point quotient',
+                                    f'`{norm(s)[:70]}`: under cdivision(True) `{norm(d)}` is C integer division (= {_c_int_div(d)}), '
+                                    f'so the float accumulator `{norm(tgt)}` receives the truncated value', _site(mod, s))
+                        else:
+                            obs.ok(rule, _q(fn), f'`{norm(d)[:40]}` is integer index arithmetic', f'target `{norm(tgt)}`' +
+                                   (' (integer expression)' if whole_int else ''), _site(mod, s))
+    obs.analysed['pyx_integer_divisions'] = n
+
+
+def _c_int_div(d):
+    if isinstance(d.left, ast.Constant) and isinstance(d.right, ast.Constant) and d.right.value:
+        return str(int(d.left.value / d.right.value))
+    return 'truncated'
